@@ -10,7 +10,7 @@ import corr  # noqa
 import progcommon as P  # noqa
 from lib import f32, f2h, h2f  # noqa
 
-MODULES = ["InovesaModel.Props.C03", "InovesaModel.Props.C03Main", "InovesaModel.Props.TieRuler", "InovesaModel.Props.TieRF", "InovesaModel.Props.TieDrift", "InovesaModel.Props.TieMain"]
+MODULES = ["InovesaModel.Props.C03", "InovesaModel.Props.C03Main", "InovesaModel.Props.TieRuler", "InovesaModel.Props.TieRF", "InovesaModel.Props.TieDrift", "InovesaModel.Props.TieMain", "InovesaModel.Props.TieKick"]
 LEVEL = "proof"
 
 
@@ -58,15 +58,26 @@ def gen(rng, count, quick, sin_steps=None):
                 p = box[2] + y * dq
                 v = math.exp(-0.5 * ((q - q0) ** 2 + (p - p0) ** 2) / sg ** 2)
                 data.append(f32(v) if v > 1e-7 else 0.0)
+        # every fourth case: a second bunch with another start (kick AND drift must act on every bunch)
+        nb = 2 if (k % 4 == 3 and sin_steps is None) else 1
+        if nb == 2:
+            ph2 = ph + rng.uniform(1.0, 5.0)
+            q1, p1 = amp * math.cos(ph2), amp * math.sin(ph2)
+            for x in range(n):
+                q = box[0] + x * dq
+                for y in range(n):
+                    p = box[2] + y * dq
+                    v = math.exp(-0.5 * ((q - q1) ** 2 + (p - p1) ** 2) / sg ** 2)
+                    data.append(f32(v) if v > 1e-7 else 0.0)
         K = steps
         every = max(1, steps // 20)
         e = box + [f32(m["angle"]), f32(m["fRF"]), 0.0, 0.0, f32(m["E0"])]
         if not lin:
             e += [f32(m["revpart"]), f32(m["Vsin"] if "Vsin" in m else m["V"]), f32(m["V0"])]
         cid = "c%d" % k
-        recs.append(dict(id=cid, n=n, it=it, lin=lin, steps=steps, K=K, c0=(q0, p0), m=m,
-                         optext="rot %s %d %d 1 %d %d %s\nextra %s\ndata %s\nrun\n" % (
-                             cid, n, it, K, every, "lin" if lin else "sin", " ".join(f2h(x) for x in e),
+        recs.append(dict(id=cid, n=n, it=it, lin=lin, steps=steps, K=K, c0=(q0, p0), m=m, nb=nb,
+                         optext="rot %s %d %d %d %d %d %s\nextra %s\ndata %s\nrun\n" % (
+                             cid, n, it, nb, K, every, "lin" if lin else "sin", " ".join(f2h(x) for x in e),
                              " ".join(f2h(x) for x in data))))
     return recs
 
@@ -82,7 +93,16 @@ def series(lines):
 
 
 def oracle(rec, A):
-    ser = series(A.get(rec["id"], []))
+    allser = series(A.get(rec["id"], []))
+    nb = rec.get("nb", 1)
+    for b in range(nb):
+        f = oracle_bunch(rec, allser[b::nb])
+        if f:
+            return f if nb == 1 else "bunch %d of %d: %s" % (b, nb, f)
+    return None
+
+
+def oracle_bunch(rec, ser):
     if len(ser) < 3:
         return "no centroid series"
     th = float(f32(rec["m"]["angle"]))
